@@ -1,5 +1,5 @@
 (* C05 - Rejected CTAP2 requests report exactly the status code their fault calls for. *)
-From Ctap Require Import Base Schema Wire Utf8 Typed WellTyped Procs Inst Tables ProcTables Finite CborItem WireP SkipP TypedP EntriesP FramingP C11P SerP TotalP RoundTripP PrefixP FaultP ObRequestSide ObOpTables FnShapes Shapes ObShapeRequest.
+From Ctap Require Import Base Schema Wire Utf8 Typed WellTyped Procs Inst Tables ProcTables Finite CborItem WireP SkipP TypedP EntriesP FramingP C11P SerP TotalP RoundTripP PrefixP FaultP ObRequestSide ObOpTables FnShapes Shapes ObShapeRequest Deps ObDeps.
 Local Open Scope string_scope.
 Local Open Scope Z_scope.
 
@@ -216,6 +216,10 @@ Proof. exact generated_route. Qed.
 Theorem c05_modelled_functions_unchanged_request : shapes_hold fn_shapes shapes_request = true.
 Proof. exact generated_shapes_request. Qed.
 
+(* the third-party crates the model represents by hand are pinned at the versions it was written against *)
+Theorem c05_modelled_dependencies_pinned : deps_hold lock_versions cargo_deps = true.
+Proof. exact generated_deps. Qed.
+
 Eval vm_compute in "ASSUMPTIONS c05_mapping". Print Assumptions c05_mapping.
 Eval vm_compute in "ASSUMPTIONS c05_invalid_command_status". Print Assumptions c05_invalid_command_status.
 Eval vm_compute in "ASSUMPTIONS c05_status_range". Print Assumptions c05_status_range.
@@ -242,3 +246,4 @@ Eval vm_compute in "ASSUMPTIONS c05_indefinite_length". Print Assumptions c05_in
 Eval vm_compute in "ASSUMPTIONS c05_wrong_major". Print Assumptions c05_wrong_major.
 Eval vm_compute in "ASSUMPTIONS c05_wrong_type_value". Print Assumptions c05_wrong_type_value.
 Eval vm_compute in "ASSUMPTIONS c05_member_error_propagates". Print Assumptions c05_member_error_propagates.
+Eval vm_compute in "ASSUMPTIONS c05_modelled_dependencies_pinned". Print Assumptions c05_modelled_dependencies_pinned.
